@@ -1919,6 +1919,11 @@ hdf_xdr_cdf(XDR *xdrs, NC **handlep)
             break;
         case XDR_DECODE:
             if (FAIL == (status = hdf_read_xdr_cdf(xdrs, handlep))) {
+                /* the old-style reader is for files that have no SD metadata;
+                   a failure while reading metadata that exists is an error,
+                   not a reason to reinterpret the file */
+                if ((*handlep)->vgid != 0)
+                    HGOTO_ERROR(DFE_READERROR, FAIL);
                 status = hdf_read_sds_cdf(xdrs, handlep);
                 if (FAIL == status) {
                     HGOTO_ERROR(DFE_BADNDG, FAIL);
